@@ -704,12 +704,40 @@ func (p Prop) Run(ci interface{}, focus *core.Violation) *core.Outcome {
 	switch porcupine.CheckOperationsTimeout(closedModel, hist, 10*time.Second) {
 	case porcupine.Illegal:
 		// name the first offending operation for the key
+		// An operation that obtained its cached statement before a Reset or an
+		// ErrBadConn eviction returned may find it closed under it (known
+		// finding); one that started after every Reset and eviction had returned
+		// must not: the closed statement was left in the cache.
 		detail, key := "", "closed_error_without_close"
+		var ends []int64 // return times of Resets and of operations in which an ErrBadConn fault fired
+		for _, q := range res.recs {
+			if q.Kind == "reset" {
+				ends = append(ends, q.Return)
+				continue
+			}
+			for _, f := range c.Faults {
+				if seq := res.fired[f.ID]; f.Type == "bad_conn" && seq != 0 && q.Call <= seq && seq <= q.Return {
+					ends = append(ends, q.Return)
+				}
+			}
+		}
 		for _, r := range res.recs {
 			if r.Kind == "use" && isClosedErr(r.Err) && (firstClose < 0 || r.Return < firstClose) {
-				detail = fmt.Sprintf("task %d: %q returned %q but no Close overlaps or precedes it (first Close invoked at %d, operation returned at %d; Reset in this run: %v)", r.Task, texts[r.Text], r.Err, firstClose, r.Return, resetSeen)
-				key = fmt.Sprintf("closed_error_without_close|reset=%v|evict=%v", resetSeen, badConnFired)
-				break
+				overlaps := false
+				for _, e := range ends {
+					if r.Call <= e {
+						overlaps = true
+					}
+				}
+				if !overlaps {
+					detail = fmt.Sprintf("task %d: %q (invoked at %d) returned %q; no Close precedes it and every Reset and ErrBadConn eviction of the run had returned before it started (%v): a closed statement stayed in the cache", r.Task, texts[r.Text], r.Call, r.Err, ends)
+					key = fmt.Sprintf("stale_closed_statement|reset=%v|evict=%v", resetSeen, badConnFired)
+					break
+				}
+				if detail == "" {
+					detail = fmt.Sprintf("task %d: %q returned %q but no Close overlaps or precedes it (first Close invoked at %d, operation returned at %d; Reset in this run: %v)", r.Task, texts[r.Text], r.Err, firstClose, r.Return, resetSeen)
+					key = fmt.Sprintf("closed_error_without_close|reset=%v|evict=%v", resetSeen, badConnFired)
+				}
 			}
 		}
 		if report("not_transparent", key, "the history of uses and Close is not linearizable against the open/closed model: "+detail) {
